@@ -25,6 +25,7 @@ PROP = "C10"
 MARK = "<#EVTX-SEP#>"
 RID = re.compile(rb"<EventRecordID>(\d+)</EventRecordID>")
 _DUMP = {}
+FORCE_WINDOW = False      # set by C03 when it runs this check for its own purpose (every case gets a window)
 
 
 def dump(name):
@@ -125,6 +126,8 @@ def run_case(seed, i, tier):
     opts = ["--color", "never", "--tz-offset", "+00:00", "--separator", MARK]
     a = b = None
     form = rng.choice(("none", "both", "both", "only_a", "only_b", "a_eq_b"))
+    if FORCE_WINDOW and form == "none":
+        form = "both"
     if recs and form != "none":
         a = place(rng, recs) if form != "only_b" else None
         b = place(rng, recs) if form != "only_a" else None
